@@ -96,6 +96,27 @@ class C16(Prop):
                 pipe = rng.choice(CUTTERS) + [pipe]
             out.append(Case("time", rng.choice(["local", "threads"]), [("pipe", [pipe])],
                             [["sub"], ["q", "pulls"]], {"kind": "iterator", "n": n}))
+        # counting iterator as SECOND input of a two-input operator; the first input is a synchronous cold
+        # source (so that an operator below may have ended the stream before the iterator is even subscribed)
+        # or a hot subject
+        for _ in range(reps):
+            n = rng.randint(1, 8)
+            k = rng.choice(TWO)
+            main = rng.choice([["hot", "0"], ["iter", "1"], ["iter", "1", "2"], ["iter"], ["iter", "1", "2", "3"]])
+            pipe = [k, main, ["iterc", str(n)]]
+            for _ in range(rng.randint(0, 2)):
+                pipe = rng.choice(MIDDLE) + [pipe]
+            if rng.random() < 0.9:
+                pipe = rng.choice(CUTTERS) + [pipe]
+            evs = [["sub"], ["q", "pulls"]]
+            if main[0] == "hot":
+                for i in range(rng.randint(0, 4)):
+                    evs += [["emit", "0", sx.N(i + 1)]]
+                if rng.random() < 0.5:
+                    evs += [["emit", "0", "c"]]
+                evs += [["q", "pulls"]]
+            out.append(Case("time", rng.choice(["local", "threads"]), [("pipe", [pipe])], evs,
+                            {"kind": "iterator-second", "n": n, "op": k}))
         out += self.stream_cases(rng, tier)
         return tg.with_units(seed, out)
 
@@ -186,7 +207,8 @@ class C16(Prop):
         kind = case.meta.get("kind", "")
         if kind == "stream" or self._src(case) in STREAMS:
             return self.stream_oracle(case, lines, model_lines)
-        if kind == "iterator" or case.field("pipe") and self._src(case) == "iterc":
+        if kind in ("iterator", "iterator-second") or case.field("pipe") and (
+                self._src(case) == "iterc" or "iterc" in tg._heads_of(case.field("pipe")[0], set())):
             delivered_items = None
             for k, e in enumerate(case.events):
                 b = lines.get(k)
